@@ -687,6 +687,20 @@ impl World {
                     cw.node_ctx = TestNodeContext { node, secp_ctx: Secp256k1::signing_only() };
                 }
                 self.out.tags.insert("restart".into());
+                // "afterwards the channel is marked closed" must survive a restart: once a closing signature was
+                // returned, the state restored from the persister has to say closed (through every id)
+                if self.chan.as_ref().map(|c| c.ready && c.close_signed).unwrap_or(false) {
+                    let cw = self.chan.as_ref().unwrap();
+                    let (node, ids) = (cw.node_ctx.node.clone(), cw.ids.clone());
+                    for id in &ids {
+                        let closed = node.with_channel(id, |c| Ok(c.enforcement_state.channel_closed)).unwrap_or(false);
+                        if !closed {
+                            let at = self.opno;
+                            self.violation(at, "close-not-marked-closed",
+                                "a closing signature was returned, but the channel restored from the persister is not marked closed".into());
+                        }
+                    }
+                }
                 if self.chan.as_ref().map(|c| c.ready).unwrap_or(false) {
                     format!("ok {}", self.digest())
                 } else {
